@@ -494,7 +494,10 @@ def string_ui(rng, doc):
     for k in ("minLength", "maxLength", "default"):
         p.pop(k, None)
     ctl = rng.choice(["LINE_EDIT", "MULTILINE_EDIT", "DROPDOWN_LIST", "CHECK_BOX", "HIDDEN", "SPIN_BOX", "line_edit"])
-    av = rng.choice([None, ["a", "b"], ["true", "false"], ["TRUE", "False"], ["yes", "no"], ["on", "off", "on"], ["1", "0"], ["true"], ["true", "false", "x"], ["YES", "NO", "yes"]])
+    av = rng.choice([None, ["a", "b"], ["true", "false"], ["TRUE", "False"], ["yes", "no"], ["on", "off", "on"], ["1", "0"], ["true"], ["true", "false", "x"], ["YES", "NO", "yes"],
+                     # exactly two values that are the SAME check-box word (no pair), and valid pairs in mixed case / either order
+                     ["on", "ON"], ["yes", "yes"], ["1", "1"], ["False", "false"], ["True", "false"], ["YES", "no"], ["off", "On"], ["0", "1"], ["no", "YES"],
+                     ["true", "no"], ["1", "off"], ["true", "False", "FALSE"]])
     if av is None:
         p.pop("allowedValues", None)
     else:
